@@ -27,6 +27,7 @@
  "harness": "h_open2_super",
  "sources": ["lib/ext2fs/io_manager.c", "lib/ext2fs/blknum.c"],
  "defines": ["EXT2_CUSTOM_MEMORY_ROUTINES"],
+ "replace": ["io_channel_set_options"],
  "unwind": 5,
  "unwind_reason": "the only loop in the explored prefix is the `goto retry` re-read of the superblock, bounded by csum_retries++ < 3 (4 reads); strlen/strcpy/strchr run over the 1-character device name; the descriptor loops lie behind the cut",
  "cbmc_flags": ["--object-bits", "10"],
@@ -34,9 +35,88 @@
  "timeout": 600,
  "assumes": ["PREFIX: the allocation of the descriptor array (ext2fs_get_array, directly in front of the first descriptor read) always fails, so the descriptor reads and everything behind them are not explored; with EXT2_FLAG_SUPER_ONLY the tail behind skip_read_bg runs with ext2fs_mmp_start failing and ext2fs_hashmap_create / ext2fs_load_nls_table as stubs",
 	     "device name fixed \"d\", io_options NULL (option parsing is not the topic; see readonly/open2_ro)",
-	     "superblock bytes, e2image header bytes, flags, superblock, block_size arbitrary; every re-read of the superblock after a checksum mismatch delivers the same bytes",
+	     "superblock bytes (independent for each of the up to 4 reads; the bounds are stated for the bytes delivered last), e2image header bytes, flags, superblock, block_size arbitrary",
 	     "ext2fs_verify_csum_type / ext2fs_superblock_csum_verify are stubs with arbitrary answers per read (over-approximation); ext2fs_init_csum_seed, ext2fs_free are counting stubs; ext2fs_safe_getenv returns NULL; each memory allocation succeeds (static object of exactly the requested size) or fails arbitrarily",
 	     "little-endian host (WORDS_BIGENDIAN off): the byte-swapping branches are not compiled"],
+ "native": false
+}
+*/
+/* VERIF-UNIT
+{
+ "name": "open2_super_inodes_count",
+ "props": ["C06"],
+ "level": "P",
+ "tier": "wip",
+ "harness": "h_open2_super",
+ "sources": ["lib/ext2fs/io_manager.c", "lib/ext2fs/blknum.c"],
+ "defines": ["EXT2_CUSTOM_MEMORY_ROUTINES"],
+ "replace": ["io_channel_set_options"],
+ "unwind": 5,
+ "unwind_reason": "as open2_super_validation",
+ "cbmc_flags": ["--object-bits", "10"],
+ "backend": "cadical",
+ "functions": ["lib/ext2fs/openfs.c:ext2fs_open2"],
+ "timeout": 900,
+ "assumes": ["as open2_super_validation; adds the one statement with a 64-bit product: at the cut s_inodes_count = fs->group_desc_count * s_inodes_per_group (unless EXT2_FLAG_IGNORE_SB_ERRORS)"],
+ "native": false
+}
+*/
+/* VERIF-UNIT
+{
+ "name": "open2_super_desc_min",
+ "props": ["C06"],
+ "level": "P",
+ "tier": "wip",
+ "harness": "h_open2_super",
+ "sources": ["lib/ext2fs/io_manager.c", "lib/ext2fs/blknum.c"],
+ "defines": ["EXT2_CUSTOM_MEMORY_ROUTINES"],
+ "replace": ["io_channel_set_options"],
+ "unwind": 5,
+ "unwind_reason": "as open2_super_validation",
+ "cbmc_flags": ["--object-bits", "10"],
+ "functions": ["lib/ext2fs/openfs.c:ext2fs_open2"],
+ "timeout": 600,
+ "assumes": ["as open2_super_validation; adds: at the cut a 64bit superblock has s_desc_size >= 64 = sizeof(struct ext4_group_desc) whatever the flags (the descriptor accessors of blknum.c read and write the whole structure at stride s_desc_size & ~7 inside an array of desc_blocks * blocksize bytes)",
+	     "FAILS on the unchanged tree: FINDING findings/C06_open2_desc_size_ignore_sb (with EXT2_FLAG_IGNORE_SB_ERRORS any non-zero s_desc_size is accepted); green with its proposed-fix.patch"],
+ "native": false
+}
+*/
+/* VERIF-UNIT
+{
+ "name": "open2_super_itable_blocks",
+ "props": ["C06"],
+ "level": "P",
+ "tier": "wip",
+ "harness": "h_open2_super",
+ "sources": ["lib/ext2fs/io_manager.c", "lib/ext2fs/blknum.c"],
+ "defines": ["EXT2_CUSTOM_MEMORY_ROUTINES"],
+ "replace": ["io_channel_set_options"],
+ "unwind": 5,
+ "unwind_reason": "as open2_super_validation",
+ "cbmc_flags": ["--object-bits", "10"],
+ "functions": ["lib/ext2fs/openfs.c:ext2fs_open2"],
+ "timeout": 900,
+ "assumes": ["as open2_super_validation; adds: at the cut B10 (inodes per group <= 8 * blocksize) and fs->inode_blocks_per_group = ceil(inodes_per_group * inode_size / blocksize) computed without 32-bit wrap (the inode scan of lib/ext2fs/inode.c relies on inodes_per_group inodes fitting into inode_blocks_per_group blocks)",
+	     "FAILS on the unchanged tree: FINDING findings/C06_open2_itable_blocks_wrap; green with its proposed-fix.patch"],
+ "native": false
+}
+*/
+/* VERIF-UNIT
+{
+ "name": "open2_super_format_obs",
+ "props": ["C06"],
+ "level": "P",
+ "tier": "obs",
+ "harness": "h_open2_super",
+ "sources": ["lib/ext2fs/io_manager.c", "lib/ext2fs/blknum.c"],
+ "defines": ["EXT2_CUSTOM_MEMORY_ROUTINES"],
+ "replace": ["io_channel_set_options"],
+ "unwind": 5,
+ "unwind_reason": "as open2_super_validation",
+ "cbmc_flags": ["--object-bits", "10"],
+ "functions": ["lib/ext2fs/openfs.c:ext2fs_open2"],
+ "timeout": 600,
+ "assumes": ["OBSERVATION unit (states more than C06 demands, fails on the tree): format bounds ext2fs_open2 does not enforce and that are caught at first use elsewhere (read_bitmaps refuses clusters_per_group/8 > blocksize, e2fsck check_super_block): B8 clusters per group <= 8*blocksize, B9 exact (the code compares modulo 2^32: clusters_per_group << ratio wraps), blocks per group <= 8*blocksize*ratio (the code allows 65528*ratio), blocks per group multiple of 8; no memory-safety consequence found (valgrind runs of e2fsck -n, dumpe2fs, debugfs [-c], e2image, e2freefrag, resize2fs -P)"],
  "native": false
 }
 */
@@ -55,7 +135,7 @@ errcode_t ext2fs_free_mem(void *ptr);
 struct in_o2 {
 	int flags, superblock;
 	unsigned int block_size;
-	struct ext2_super_block sb;	/* sizeof == 1024 == SUPERBLOCK_SIZE: the raw bytes, typed by the on-disk layout */
+	struct ext2_super_block sb0, sb1, sb2, sb3;	/* sizeof == 1024 == SUPERBLOCK_SIZE: the raw bytes of each of the up to 4 reads, typed by the on-disk layout */
 	unsigned char hdr[512];		/* the e2image header bytes (struct ext2_image_hdr is smaller) */
 	unsigned char csum_type_ok[4], csum_ok[4];
 	unsigned char alloc_fail[8];
@@ -68,9 +148,19 @@ struct in_o2 IN;
 unsigned int g_sb_reads, g_hdr_reads, g_desc_reads, g_other_methods, g_cuts, g_allocs, g_free_calls, g_seed_calls;
 unsigned int g_pool_fs, g_pool_name, g_pool_sb, g_pool_hdr;
 
+/*
+ * The device name "d" contains no '?' and io_options is NULL, so ext2fs_open2 never parses io options: the contract
+ * REQUIRES(0) turns "never called" into a checked call-site obligation and keeps the parser's body (malloc of a symbolic
+ * size, string loops) out of the formula.  (Option parsing on arbitrary names: readonly/open2_ro.)
+ */
+errcode_t io_channel_set_options(io_channel channel, const char *opts)
+	REQUIRES(0)
+	ASSIGNS();
+
 #include "lib/ext2fs/openfs.c"
 
-#define G_SB (&IN.sb)		/* the superblock bytes the device delivers */
+static struct ext2_super_block G_SBV;	/* ghost: the superblock bytes the device delivered LAST */
+#define G_SB (&G_SBV)
 
 /*
  * EXT2_CUSTOM_MEMORY_ROUTINES: allocation stubs.  The prefix allocates exactly five objects (handle, device name, superblock
@@ -135,7 +225,7 @@ static void mon_validated(int geometry)
 	CHECK(SBS_FLEX_OK(sb), "cut: B5 log_groups_per_flex is a defined shift");
 	CHECK(SBS_INODE_SIZE_OK(sb), "cut: B6 inode size power of two in [128, blocksize]");
 	CHECK((IN.flags & EXT2_FLAG_IGNORE_SB_ERRORS) || SBS_DESC_SIZE_OK(sb), "cut: B7 descriptor size power of two in [64,1024] with 64bit");
-	CHECK(SBS_BPG_CONSISTENT(sb), "cut: B9 blocks per group = clusters per group * cluster ratio");
+	CHECK(SBS_BPG_CONSISTENT32(sb), "cut: B9 blocks per group = clusters per group * cluster ratio (mod 2^32; the exact statement is in the obs unit)");
 	CHECK(fs->blocksize == SBS_BLOCK_SIZE(sb), "cut: fs->blocksize is the format's block size");
 	CHECK(fs->cluster_ratio_bits == (int)SBS_RATIO_BITS(sb), "cut: fs->cluster_ratio_bits is log2(cluster/block)");
 	if (!geometry)
@@ -145,6 +235,24 @@ static void mon_validated(int geometry)
 	CHECK(SBS_IPG_NONZERO(sb), "cut: B10 inodes per group non-zero");
 	CHECK(SBS_FDB_OK(sb), "cut: B11 first data block < blocks count");
 	CHECK(fs->group_desc_count >= 1, "cut: at least one group");
+#ifdef VERIF_UNIT_open2_super_desc_min
+	CHECK(SBS_DESC_HOLDS_STRUCT(sb), "cut: B7'' 64bit: s_desc_size >= sizeof(struct ext4_group_desc) = 64, whatever the flags");
+#endif
+#ifdef VERIF_UNIT_open2_super_itable_blocks
+	CHECK(SBS_IPG_MAX_OK(sb), "cut: B10 inodes per group <= 8 * blocksize");
+	CHECK(fs->inode_blocks_per_group == SBS_ITABLE_BLOCKS(sb), "cut: fs->inode_blocks_per_group = ceil(inodes_per_group * inode_size / blocksize), no 32-bit wrap");
+#endif
+#ifdef VERIF_UNIT_open2_super_format_obs
+	CHECK(SBS_CPG_OK(sb), "obs: B8 clusters per group <= 8 * blocksize");
+	CHECK(SBS_BPG_CONSISTENT(sb), "obs: B9 blocks per group = clusters per group * ratio, exactly");
+	CHECK(SBS_BPG_MAX_OK(sb), "obs: B9 blocks per group <= 8 * blocksize * ratio");
+	CHECK(SBS_BPG_MULT8(sb), "obs: B9 blocks per group multiple of 8");
+#endif
+#ifdef VERIF_UNIT_open2_super_inodes_count
+	CHECK((IN.flags & EXT2_FLAG_IGNORE_SB_ERRORS) || SBS_INODES_COUNT_OK(sb, fs->group_desc_count), "cut: B13 inodes count = groups * inodes per group");
+#endif
+	CHECK(fs->desc_blocks >= 1 && fs->desc_blocks <= fs->group_desc_count, "cut: 1 <= descriptor blocks <= groups");
+	CHECK((IN.flags & EXT2_FLAG_IGNORE_SB_ERRORS) || SBS_FIRST_META_BG_OK(sb, fs->desc_blocks), "cut: B14 first_meta_bg <= descriptor blocks");
 }
 
 errcode_t ext2fs_get_array(unsigned long count, unsigned long size, void *ptr)
@@ -178,7 +286,15 @@ static errcode_t st_read_blk(io_channel ch, unsigned long block, int count, void
 	if (count == -SUPERBLOCK_SIZE) {
 		CHECK(g_sb_reads < 4, "at most 4 superblock reads");
 		CHECK(block == 1 || (IN.superblock != 0 && !(IN.flags & EXT2_FLAG_IMAGE_FILE) && block == (unsigned long) IN.superblock), "the superblock is read where the caller said");
-		memcpy(buf, &IN.sb, SUPERBLOCK_SIZE);	/* buf smaller than a superblock => bounds violation here */
+		if (g_sb_reads >= 4)
+			return EXT2_ET_SHORT_READ;
+		/* buf smaller than a superblock => bounds violation in the memcpy */
+		switch (g_sb_reads) {
+		case 0: memcpy(buf, &IN.sb0, SUPERBLOCK_SIZE); G_SBV = IN.sb0; break;
+		case 1: memcpy(buf, &IN.sb1, SUPERBLOCK_SIZE); G_SBV = IN.sb1; break;
+		case 2: memcpy(buf, &IN.sb2, SUPERBLOCK_SIZE); G_SBV = IN.sb2; break;
+		default: memcpy(buf, &IN.sb3, SUPERBLOCK_SIZE); G_SBV = IN.sb3; break;
+		}
 		g_sb_reads++;
 		return 0;
 	}
@@ -268,6 +384,7 @@ void h_open2_super(void)
 	}
 	if (g_sb_reads >= 1) {
 		const struct ext2_super_block *sb = G_SB;
+		int refused = (r == EXT2_ET_CORRUPT_SUPERBLOCK || r == EXT2_ET_BAD_DESC_SIZE || r == EXT2_ET_UNEXPECTED_BLOCK_SIZE);
 		int early = (r == EXT2_ET_UNKNOWN_CSUM || r == EXT2_ET_SB_CSUM_INVALID || r == EXT2_ET_UNIMPLEMENTED || r == EXT2_ET_NO_MEMORY);
 		int feat = (r == EXT2_ET_UNSUPP_FEATURE || r == EXT2_ET_RO_UNSUPP_FEATURE || r == EXT2_ET_CANT_USE_LEGACY_BITMAPS || r == EXT2_ET_REV_TOO_HIGH);
 		/* bound violated => refused, with an error of the expected family (checks in front of it may answer first) */
@@ -284,14 +401,13 @@ void h_open2_super(void)
 			CHECK(r == EXT2_ET_CORRUPT_SUPERBLOCK || early || feat, "B6 bad inode size => CORRUPT_SUPERBLOCK (or an unsupported-feature verdict)");
 			REACH("bad inode size");
 		} else if (!SBS_DESC_SIZE_OK(sb) && !(IN.flags & EXT2_FLAG_IGNORE_SB_ERRORS)) {
-			CHECK(r == EXT2_ET_BAD_DESC_SIZE || early || feat, "B7 bad descriptor size => BAD_DESC_SIZE");
+			CHECK(r == EXT2_ET_BAD_DESC_SIZE || r == EXT2_ET_CORRUPT_SUPERBLOCK || early || feat, "B7 bad descriptor size => BAD_DESC_SIZE (or CORRUPT_SUPERBLOCK from a stricter check in front of it)");
 			REACH("bad desc size");
-		} else if (!SBS_BPG_CONSISTENT(sb)) {
-			CHECK(r == EXT2_ET_CORRUPT_SUPERBLOCK || r == EXT2_ET_BAD_DESC_SIZE || early || feat, "B9 blocks per group inconsistent with clusters per group => CORRUPT_SUPERBLOCK");
+		} else if (!SBS_BPG_CONSISTENT32(sb)) {
+			CHECK(refused || early || feat, "B9 blocks per group inconsistent with clusters per group => CORRUPT_SUPERBLOCK");
 		} else if (!SBS_HAS_JOURNAL_DEV(sb) &&
 			   (!SBS_DESC_FITS_BLOCK(sb) || !SBS_BPG_MIN8(sb) || !SBS_IPG_NONZERO(sb) || !SBS_FDB_OK(sb))) {
-			CHECK(r == EXT2_ET_CORRUPT_SUPERBLOCK || r == EXT2_ET_BAD_DESC_SIZE || r == EXT2_ET_UNEXPECTED_BLOCK_SIZE || early || feat,
-			      "B7'/B9/B10/B11 violated => CORRUPT_SUPERBLOCK in front of the cut");
+			CHECK(refused || early || feat, "B7'/B9/B10/B11 violated => CORRUPT_SUPERBLOCK in front of the cut");
 			CHECK(g_cuts == 0, "B7'/B9/B10/B11 violated => cut not reached");
 			REACH("bad geometry");
 		}
@@ -300,6 +416,6 @@ void h_open2_super(void)
 		CHECK(r == EXT2_ET_NO_MEMORY || r == EXT2_ET_MMP_FAILED, "after a cut the stub's error is propagated");
 		REACH("cut reached");
 	}
-	CHECK((IN.flags & EXT2_FLAG_NOFREE_ON_ERROR) || r == 0 || r == EXT2_ET_MAGIC_E2IMAGE || (g_free_calls == 1 && fs == 0), "error: handle freed and NULL returned");
+	CHECK((IN.flags & EXT2_FLAG_NOFREE_ON_ERROR) || r == 0 || r == EXT2_ET_MAGIC_E2IMAGE || g_pool_fs == 0 || (g_free_calls == 1 && fs == 0), "error: handle freed and NULL returned");
 	REACH("end");
 }
